@@ -130,11 +130,14 @@ type ScriptedValidator struct {
 	// validator handing out what it has along with the error of its refresh)
 	ErrWithResults bool
 	Calls          []revocation.ValidateContextOptions
+	// Faulted[i]: consultation i ended with an injected transport fault (not with the scripted answer)
+	Faulted []bool
 	Legacy  int // calls through the deprecated interface
 }
 
 func (v *ScriptedValidator) answer(chain []*x509.Certificate) ([]*revresult.CertRevocationResult, error) {
 	d := rt.Point(rt.Op{Kind: "revocation.validate"})
+	v.Faulted = append(v.Faulted, d.Err != nil)
 	if d.Err != nil {
 		return nil, fmt.Errorf("simulated: revocation service unreachable: %w", d.Err)
 	}
